@@ -338,6 +338,8 @@ class World:
         if isinstance(obj, VTy):
             if name == 'objects' or name == '_objects':
                 return self.as_sequence(interp, obj)
+            if name in ('l', 'r'):
+                return VTy(self.ty_adjoint(interp, obj.t, name))
             return VMethod(obj, name)
         if isinstance(obj, VSlice):
             if name in ('start', 'stop', 'step'):
@@ -432,6 +434,27 @@ class World:
             return self.functor_call(interp, fn, args[0])
         raise Unsupported('call of ' + fn.kind)
 
+    def ty_adjoint(self, interp, t, side):
+        """t.l / t.r of a rigid type: uninterpreted on sequences, with the pregroup facts instantiated where the term
+        is created: same length, mutually inverse, anti-homomorphism on the concatenation t is written as, unit"""
+        ex = interp.ex
+        f, g = (T.tyl, T.tyr) if side == 'l' else (T.tyr, T.tyl)
+        parts = T._seq_parts(t)
+        if not parts:
+            return T.EMPTY
+        # (x.l).r == x : cancel syntactically when t is itself an adjoint
+        if len(parts) == 1 and z3.is_app(parts[0]) and parts[0].decl().name() == g.name():
+            return parts[0].arg(0)
+        whole = f(t)
+        ex.assume(z3.Length(whole) == T.ty_len(t))
+        ex.assume(g(whole) == t)
+        if len(parts) > 1:
+            pieces = []
+            for p_ in reversed(parts):
+                pieces.append(self.ty_adjoint(interp, p_, side))
+            ex.assume(whole == T.ty_concat(*pieces))
+        return whole
+
     def functor_ty(self, interp, F, t):
         """F(t) for a type t: FT(t), with the homomorphism instance for the concatenation t is written as"""
         ex = interp.ex
@@ -498,6 +521,8 @@ class World:
             return VSlice(*a)
         if cls == 'py.bool':
             return VBool(ex.truth(args[0]))
+        if cls == 'rigid.Id':
+            cls = 'monoidal.Id'        # same fields; the rigid class only upgrades (abstract Upgrade contract)
         init = cls + '.__init__'
         if init in self.contracts:
             return self.apply(interp, init, args, kwargs, construct=cls)
@@ -525,6 +550,7 @@ class World:
         ('monoidal.Diagram', 'permutation'): 'monoidal.Diagram.permutation',
         ('rigid.Diagram', 'cups'): 'rigid.cups',
         ('rigid.Diagram', 'caps'): 'rigid.caps',
+        ('rigid.Id', 'id'): 'monoidal.Id.__init__',
         ('cat.Arrow', 'id'): 'cat.Id.__init__',
     }
 
